@@ -3,3 +3,6 @@ import Dicom.Props.C03
 #print axioms Dicom.C03.any_two_segmentations
 #print axioms Dicom.C03.frames_concat
 #print axioms Dicom.C03.frames_wellformed
+#print axioms Dicom.C03.provider_is_function_of_stream
+#print axioms Dicom.C03.provider_segmentation_independent
+#print axioms Dicom.Prov.drained_after
